@@ -81,18 +81,45 @@ type rcLine struct {
 }
 
 type rcHandler struct {
-	mu sync.Mutex
-	d  []rcDel
+	mu   sync.Mutex
+	d    []rcDel
+	seqs []int         // the service's send number carried by every notification (HandlerQueue driver)
+	gate chan struct{} // non-nil: the next handler call blocks until it is closed
+	in   bool          // a call is blocked
+	slow time.Duration // every call takes this long (a slow application)
 }
 
-func (h *rcHandler) add(k string, id int) { h.mu.Lock(); h.d = append(h.d, rcDel{k, id}); h.mu.Unlock() }
-func (h *rcHandler) HandleTx(ctx context.Context, tx *Tx)             { h.add("tx", int(tx.ID)) }
-func (h *rcHandler) HandleTxUpdate(ctx context.Context, u *TxUpdate)  { h.add("upd", int(u.ID)) }
-func (h *rcHandler) HandleHeaders(ctx context.Context, hs *Headers)   { h.add("hdrs", int(hs.StartHeight)) }
-func (h *rcHandler) HandleInSync(ctx context.Context)                 { h.add("insync", 0) }
+func (h *rcHandler) add(k string, id int) { h.addn(k, id, -1) }
+func (h *rcHandler) addn(k string, id, n int) {
+	h.mu.Lock()
+	h.d = append(h.d, rcDel{k, id})
+	h.seqs = append(h.seqs, n)
+	g := h.gate
+	if g != nil {
+		h.in = true
+	}
+	slow := h.slow
+	h.mu.Unlock()
+	if g != nil {
+		<-g
+	}
+	if slow > 0 {
+		time.Sleep(slow)
+	}
+}
+func (h *rcHandler) HandleTx(ctx context.Context, tx *Tx)            { h.addn("tx", int(tx.ID), int(tx.Tx.LockTime)) }
+func (h *rcHandler) HandleTxUpdate(ctx context.Context, u *TxUpdate) { h.addn("upd", int(u.ID), int(u.TxID[2])|int(u.TxID[3])<<8) }
+func (h *rcHandler) HandleHeaders(ctx context.Context, hs *Headers) {
+	n := -1
+	if len(hs.Headers) > 0 {
+		n = int(hs.Headers[0].Nonce)
+	}
+	h.addn("hdrs", int(hs.StartHeight), n)
+}
+func (h *rcHandler) HandleInSync(ctx context.Context) { h.add("insync", 0) }
 func (h *rcHandler) HandleMessage(ctx context.Context, p MessagePayload) {
-	if _, ok := p.(*AcceptRegister); ok {
-		h.add("accepted", 0)
+	if a, ok := p.(*AcceptRegister); ok {
+		h.addn("accepted", 0, int(a.MessageCount))
 	}
 }
 
@@ -123,6 +150,7 @@ type rcH struct {
 	gate      *rcGate      // what the service reads the current connection through
 	big       map[int]bool // call slot k holds a SendTx of the big transaction
 	carried   bool         // a message is carried over to the next handshake
+	acceptCount int        // HandlerQueue driver: the message count the next accept carries (its send number)
 	bigNext   bool
 	seenAt    []time.Time
 	doneAt    []time.Time
@@ -626,6 +654,9 @@ func (h *rcH) step(a rcAct) (res string) {
 			return "next key: " + err.Error()
 		}
 		acc := &AcceptRegister{Key: sk.PublicKey(), PushDataCount: 1, UTXOCount: 2, MessageCount: 3}
+		if h.acceptCount > 0 {
+			acc.MessageCount = uint64(h.acceptCount)
+		}
 		if a.Kind == "replay" && h.lastAcc == nil {
 			return "no earlier accept to replay"
 		}
